@@ -52,7 +52,7 @@ var rSegs = []string{"a", "b", "ab", "ba", "abc", "users", "us", ":x", ":y", ":i
 var rMethods = []string{"GET", "POST", "GET", "GET", rNF, "PURGE", "PUT", "LOCK"}
 
 // all eleven built-in methods, the not-found pseudo method and custom names (C03)
-var rAllMethods = []string{"CONNECT", "DELETE", "GET", "HEAD", "OPTIONS", "PATCH", "POST", "PROPFIND", "PUT", "TRACE", "REPORT", rNF, "PURGE", "LOCK", "get"}
+var rAllMethods = []string{"CONNECT", "DELETE", "GET", "HEAD", "OPTIONS", "PATCH", "POST", "PROPFIND", "PUT", "TRACE", "REPORT", rNF, "PURGE", "LOCK", "get", "QUERY"}
 
 func rGenPattern(rng *rand.Rand) string {
 	n := rng.Intn(4)
